@@ -216,7 +216,7 @@ fn main() {
     rep.note("assumptions", json!(["commands of one worker are executed in submission order (crossbeam FIFO)", "a gate script that cannot make progress for 10 s is abandoned and the run counted as stalled (never a violation)"]));
     let env = Env { plan: FaultPlan::new(), notif: CountingNotifier::default() };
     let ctl = Controller::install();
-    let n = cli.cases(1200, 40_000);
+    let n = cli.cases(3_600, 40_000);
     for idx in cli.index_range(n) {
         let mut rng = Rng::for_case(cli.seed, cli.shard, idx);
         let small = idx % 4 == 0 || cli.small;
